@@ -7,7 +7,7 @@ from .. import astq, codec, reference, smf, wire
 from ..absint import AbsRaise, ADict, AList, AObj, Opaque, SeqVar, log_event
 from ..bits import AV, Sym
 from ..domains import check_domain
-from ..fold import UNKNOWN
+from ..fold import FuncRef, UNKNOWN
 from ..intset import IntSet, Undecidable
 from ..model import AnalysisError, unparse
 from ..wire import AFile, Field, StrSym, VLQ
@@ -61,27 +61,43 @@ def r09_registry(ctx):
     extra = set(reg) - set(reference.META_SPECS)
     ctx.require(not extra, 'R08.4', 'metaspec.extra', w, f'spec classes not in the SMF table: {sorted(extra)}')
     ctx.floor('R09-specs', n, 17)
-    # add_meta_spec registers under type byte and name; _add_builtin_meta_specs walks MetaSpec_* globals
-    ams = ctx.fn(ctx.p.func(META, 'add_meta_spec'))
-    subs = set()
-    for t, st in astq.stores_in(ams.node):
-        if isinstance(t, ast.Subscript):
-            subs.add((unparse(t.value), unparse(t.slice)))
-    want = {('_META_SPECS', 'spec.type_byte'), ('_META_SPECS', 'spec.type'), ('_META_SPEC_BY_TYPE', 'spec.type')}
-    ctx.require(want <= subs, 'R09.5', 'add_meta_spec', ctx.where(ams),
-                f'add_meta_spec registers {sorted(subs)}; needed {sorted(want)} so that reader and constructor see the same specs',
-                construct=f'{ams.qname}::registration')
-    txt = unparse(ams.node)
-    ctx.require("klass.__name__.replace('MetaSpec_', '')" in txt and 'spec.settable_attributes = set(spec.attributes) | {\'time\'}' in txt,
-                'R09.5', 'add_meta_spec.naming', ctx.where(ams), 'spec.type / settable_attributes are not derived as analysed',
-                construct=f'{ams.qname}::naming')
+    # the registration itself, abstractly interpreted: running _add_builtin_meta_specs() on empty registries must produce
+    # exactly the registry the other rules assume (wire.meta_registry: one spec object per MetaSpec_* class, reachable under
+    # its type byte and its name in _META_SPECS and under its name in _META_SPEC_BY_TYPE, with type and settable_attributes)
+    from ..absint import AbsInt
+    ai = AbsInt(ctx.f)
+    specs, bytype = ADict({}), ADict({})
+    ai.global_overrides[(META, '_META_SPECS')] = specs
+    ai.global_overrides[(META, '_META_SPEC_BY_TYPE')] = bytype
     ab = ctx.fn(ctx.p.func(META, '_add_builtin_meta_specs'))
-    t2 = unparse(ab.node)
-    ctx.require("globals().items()" in t2 and "startswith('MetaSpec_')" in t2 and 'add_meta_spec(' in t2, 'R09.5', '_add_builtin_meta_specs',
-                ctx.where(ab), 'the built-in specs are not registered from the MetaSpec_* globals', construct=f'{ab.qname}::shape')
-    called = any(isinstance(s, ast.Expr) and isinstance(s.value, ast.Call) and unparse(s.value.func) == '_add_builtin_meta_specs' for s in m.tree.body)
-    ctx.require(called, 'R09.5', '_add_builtin_meta_specs()', ctx.where(ab), 'the registration function is never called at import',
+    ams = ctx.fn(ctx.p.func(META, 'add_meta_spec'))
+    outs = ai.explore(lambda: ai.call_function(ab, [], {}))
+    wa = ctx.where(ab)
+    ctx.require(len(outs) == 1 and outs[0].kind == 'return', 'R09.5', '_add_builtin_meta_specs()', wa, f'registration outcomes: {outs}',
+                construct=f'{ab.qname}::outcomes')
+    want_names = set(reg)
+    ctx.require(set(bytype.d) == want_names, 'R09.5', 'registry.names', wa,
+                f'_META_SPEC_BY_TYPE holds {sorted(map(str, bytype.d))}; the MetaSpec_* classes are {sorted(want_names)}', construct=f'{ab.qname}::names')
+    for name, c in sorted(reg.items()):
+        sp_ = bytype.d.get(name)
+        tb = ctx.f.try_eval(ctx.p.class_attr(c, 'type_byte'), {}, m) if ctx.p.class_attr(c, 'type_byte') is not None else None
+        attrs_ = ctx.f.try_eval(ctx.p.class_attr(c, 'attributes'), {}, m) if ctx.p.class_attr(c, 'attributes') is not None else []
+        ok = isinstance(sp_, AObj) and sp_.cls == c and sp_.attrs.get('type') == name and specs.d.get(name) is sp_ and specs.d.get(tb) is sp_
+        sa = sp_.attrs.get('settable_attributes') if isinstance(sp_, AObj) else None
+        try:
+            sa_ok = set(sa) == set(attrs_ or []) | {'time'}
+        except TypeError:
+            sa_ok = False
+        ctx.require(ok and sa_ok, 'R09.5', f'registry({name})', ctx.where(ams),
+                    f'after registration: by type {sp_!r}, by name {specs.d.get(name)!r}, by type byte {tb!r} {specs.d.get(tb)!r}, settable {sa!r}; '
+                    f'expected one MetaSpec_{name} object under all three keys with type {name!r} and settable attributes {sorted(set(attrs_ or []) | {"time"})}',
+                    construct=f'{ams.qname}::registration')
+    called = [s_ for s_ in m.tree.body if isinstance(s_, ast.Expr) and isinstance(s_.value, ast.Call)
+              and isinstance(ctx.f.try_eval(s_.value.func, {}, m), FuncRef) and ctx.f.try_eval(s_.value.func, {}, m).info.qname == ab.qname]
+    ctx.require(len(called) >= 1, 'R09.5', '_add_builtin_meta_specs() at import', wa, 'the registration function is never called at import',
                 construct=f'{ab.qname}::called')
+    for q in ai.inlined:
+        ctx.functions.add(q)
 
 
 def _check_fn(ctx, c):
@@ -528,11 +544,28 @@ def r09_6(ctx):
     except Undecidable as e:
         ok, why = False, str(e)
     ctx.require(ok, 'R09.6', 'read_bytes.limit', w, why + ' (every size up to 1 000 000 must be readable)', construct=f'{rb.qname}::limit')
-    rets = [n for n in astq.walk_shallow(rb.node) if isinstance(n, ast.Return)]
-    shape = len(rets) == 1 and isinstance(rets[0].value, ast.ListComp) and len(rets[0].value.generators) == 1 and \
-        unparse(rets[0].value.generators[0].iter) == f'range({rb.params()[1]})' and not rets[0].value.generators[0].ifs and \
-        unparse(rets[0].value.elt) == f'read_byte({rb.params()[0]})'
-    ctx.require(shape, 'R09.6', 'read_bytes.shape', w, 'read_bytes is not [read_byte(infile) for _ in range(size)]', construct=f'{rb.qname}::shape')
+    # read_bytes un-summarised: exactly `size` bytes, in order, as a list of integers; EOFError when the stream ends first
+    ai0 = smf.make_interp(ctx)
+    ai0.summaries.pop('mido/midifiles/midifiles.py::read_bytes', None)
+    bs = [smf.sym(f'r{i}', 255) for i in range(5)]
+    for size in (0, 1, 3, 5):
+        holder = {}
+
+        def thunk_rb():
+            f_ = AFile(stream=list(bs), name='in')
+            holder['f'] = f_
+            return ai0.call_function(rb, [f_, size], {})
+        outs = ai0.explore(thunk_rb)
+        ok = len(outs) == 1 and outs[0].kind == 'return'
+        if ok:
+            v = outs[0].value
+            items = list(v.items) if isinstance(v, AList) else list(v) if isinstance(v, list) else None
+            ok = items is not None and len(items) == size and all(wire.value_equal(a, b) for a, b in zip(items, bs)) and holder['f'].pos == size
+        ctx.require(ok, 'R09.6', f'read_bytes(size={size})', w, f'read_bytes(file of 5 bytes, {size}) gives {outs} and leaves the file at {holder["f"].pos}',
+                    construct=f'{rb.qname}::shape')
+    outs = ai0.explore(lambda: ai0.call_function(rb, [AFile(stream=list(bs[:2]), name='in'), 3], {}))
+    ctx.require(bool(outs) and all(o_.kind == 'raise' and o_.exc == 'EOFError' for o_ in outs), 'R09.6', 'read_bytes(past the end)', w,
+                f'reading 3 bytes from a 2 byte file gives {outs}; expected EOFError', construct=f'{rb.qname}::eof')
     # read_byte: one byte, EOFError at end
     ai = smf.make_interp(ctx)
     rby = ctx.fn(ctx.p.func(smf.MF, 'read_byte'))
